@@ -180,6 +180,12 @@ import (
 %s)
 
 func TestVerifReplay(t *testing.T) {
+	// the code under replay may create files relative to the working directory (HLS segments, recordings):
+	// never inside the repository
+	if d, err := os.MkdirTemp("", "govc-replay-cwd-"); err == nil {
+		_ = os.Chdir(d)
+		defer os.RemoveAll(d)
+	}
 	defer func() {
 		if r := recover(); r != nil {
 			fmt.Fprintf(os.Stdout, "VERIF-REPLAY-PANIC: %%v\n", r)
@@ -745,6 +751,10 @@ import (
 
 %s
 func TestVerifReplay(t *testing.T) {
+	if d, err := os.MkdirTemp("", "govc-replay-cwd-"); err == nil {
+		_ = os.Chdir(d)
+		defer os.RemoveAll(d)
+	}
 	defer func() {
 		if r := recover(); r != nil {
 			fmt.Fprintf(os.Stdout, "VERIF-REPLAY-PANIC: %%v\n", r)
